@@ -1,7 +1,12 @@
 package main
 
 import (
+	"encoding/csv"
 	"encoding/json"
+	"os"
+	"path/filepath"
+	"strconv"
+	"strings"
 
 	"github.com/modernizing/coca/pkg/application/call"
 	"github.com/modernizing/coca/pkg/application/rcall"
@@ -15,6 +20,11 @@ func callFamily(c map[string]json.RawMessage) (interface{}, error) {
 	var clzs []core_domain.CodeDataStruct
 	if err := json.Unmarshal(c["clzs"], &clzs); err != nil {
 		return nil, err
+	}
+	if boolean(c, "cli") {
+		if r, ok, err := callCli(c); ok || err != nil {
+			return r, err
+		}
 	}
 	switch str(c, "op") {
 	case "call":
@@ -43,4 +53,82 @@ func callFamily(c map[string]json.RawMessage) (interface{}, error) {
 		return map[string]interface{}{"dot": dot, "apis": counts}, nil
 	}
 	return nil, nil
+}
+
+// callCli: `coca call -c root -d deps.json [-l]`, `coca rcall -c target -d deps.json`, `coca api -d deps.json -c` (with the
+// given apis.json and an empty identify.json, i.e. no dependency injection). ok=false: this case cannot be expressed on the
+// command line (empty rcall target, a DI map) and runs in-process.
+func callCli(c map[string]json.RawMessage) (interface{}, bool, error) {
+	op := str(c, "op")
+	if op == "rcall" && str(c, "target") == "" {
+		return nil, false, nil
+	}
+	if op == "api" {
+		var di map[string]string
+		_ = json.Unmarshal(c["di"], &di)
+		if len(di) > 0 {
+			return nil, false, nil
+		}
+	}
+	work, err := newWork()
+	if err != nil {
+		return nil, true, err
+	}
+	defer os.RemoveAll(work)
+	deps := filepath.Join(work, "deps.json")
+	if err := os.WriteFile(deps, c["clzs"], 0644); err != nil {
+		return nil, true, err
+	}
+	switch op {
+	case "call":
+		args := []string{"call", "-c", str(c, "root"), "-d", deps}
+		if boolean(c, "lookup") {
+			args = append(args, "-l")
+		}
+		if _, err := cocaCli(work, args...); err != nil {
+			return nil, true, err
+		}
+		dot, err := getReport(work, "call.dot")
+		return map[string]interface{}{"dot": string(dot)}, true, err
+	case "rcall":
+		if _, err := cocaCli(work, "rcall", "-c", str(c, "target"), "-d", deps); err != nil {
+			return nil, true, err
+		}
+		dot, err := getReport(work, "rcall.dot")
+		if err != nil {
+			return nil, true, err
+		}
+		m := map[string][]string{}
+		if b, err := getReport(work, "rcallmap.json"); err == nil {
+			_ = json.Unmarshal(b, &m)
+		}
+		return map[string]interface{}{"dot": string(dot), "map": m}, true, nil
+	case "api":
+		_ = putReport(work, "identify.json", []byte("[]"))
+		_ = putReport(work, "apis.json", c["apis"])
+		if _, err := cocaCli(work, "api", "-d", deps, "-c"); err != nil {
+			return nil, true, err
+		}
+		dot, err := getReport(work, "api.dot")
+		if err != nil {
+			return nil, true, err
+		}
+		counts := []map[string]interface{}{}
+		if b, err := getReport(work, "api.csv"); err == nil {
+			r := csv.NewReader(strings.NewReader(string(b)))
+			r.FieldsPerRecord = -1
+			r.LazyQuotes = true
+			recs, _ := r.ReadAll()
+			for i, rec := range recs {
+				if i == 0 || len(rec) < 4 {
+					continue // header
+				}
+				n, _ := strconv.Atoi(strings.TrimSpace(rec[0]))
+				counts = append(counts, map[string]interface{}{"Size": n, "HTTPMethod": strings.TrimSpace(rec[1]), "URI": strings.TrimSpace(rec[2]),
+					"Caller": strings.TrimSpace(strings.Join(rec[3:], ","))})
+			}
+		}
+		return map[string]interface{}{"dot": string(dot), "apis": counts}, true, nil
+	}
+	return nil, false, nil
 }
